@@ -176,6 +176,13 @@ impl<E: Pairing> VerifierKey<E> {
         evaluation: &E::ScalarField,
         proof: &EvaluationProof<E>,
     ) -> VerificationResult {
+        // The equation needs `g2` and `tau * g2`. With fewer G2 powers (a key made for zero
+        // evaluation points) the multi-scalar multiplication below would silently truncate
+        // to `-alpha * g2` and the check would no longer bind the evaluation.
+        if self.powers_of_g2.len() < 2 || self.powers_of_g.is_empty() {
+            return Err(VerificationError);
+        }
+
         let scalars = [(-alpha).into_bigint(), E::ScalarField::one().into_bigint()];
         let ep = <E::G2 as VariableBaseMSM>::msm_bigint(&self.powers_of_g2, &scalars);
         let lhs = commitment.0.into_group() - self.powers_of_g[0].mul(evaluation);
